@@ -314,6 +314,8 @@ impl Series1 {
         };
 
         while i < self.x.len() && self.x[i] <= x1 {
+            #[cfg(feature = "verif")]
+            crate::verif::tick();
             xs.push(self.x[i]);
             ys.push(self.y[i]);
             i += 1;
